@@ -88,7 +88,7 @@ func (encryptor *MySQLTokenizeQuery) OnQuery(ctx context.Context, query mysql.On
 		} else if err != nil {
 			return query, false, err
 		}
-		bindSettings[placeholderIndex] = item.Setting
+		encryptor_base.SetPlaceholderSetting(bindSettings, placeholderIndex, item.Setting)
 	}
 	logrus.Debugln("PostgreSQLTokenizeQuery.OnQuery changed query")
 	return mysql.NewOnQueryObjectFromStatement(stmt, nil), true, nil
